@@ -217,6 +217,7 @@ func (x *Exec) enterLoop(fr *Frame, li *loopInfo, in *State) {
 	invs := x.loopInvariants(fr, li)
 	for _, c := range invs {
 		x.obligeClause(fr, in, c, "inv-init", loopAnchor(li), func(env *Env) { env.loop = li }, li.header.Instrs[0].Pos())
+		x.obls[len(x.obls)-1].Watch = x.loopWatches(fr, in, li)
 	}
 	// havoc
 	for a := range li.cells {
@@ -276,6 +277,36 @@ func (x *Exec) enterLoop(fr *Frame, li *loopInfo, in *State) {
 	}
 }
 
+// loopWatches evaluates the witness clauses of a loop contract in state st.
+func (x *Exec) loopWatches(fr *Frame, st *State, li *loopInfo) []watch {
+	if li.spec == nil || len(li.spec.Witness) == 0 {
+		return nil
+	}
+	var out []watch
+	for _, w := range li.spec.Witness {
+		env := x.newEnv(fr, st)
+		env.loop = li
+		env.pos = li.header.Instrs[0].Pos()
+		n := w.Bound
+		if w.Var == "" {
+			n = 1
+		}
+		for k := 0; k < n; k++ {
+			name := w.Name
+			if w.Var != "" {
+				env.vars[w.Var] = intV(IntLit(int64(k)))
+				name = fmt.Sprintf("%s[%d]", w.Name, k)
+			}
+			if v, err := env.eval(w.E); err == nil {
+				if ls := flatten(v); len(ls) > 0 {
+					out = append(out, watch{Name: name, Term: ls[0]})
+				}
+			}
+		}
+	}
+	return out
+}
+
 func loopAnchor(li *loopInfo) string {
 	if li.spec != nil {
 		return "loop " + li.spec.Selector
@@ -308,6 +339,7 @@ func (x *Exec) edge(fr *Frame, st *State, from, to *ssa.BasicBlock, cond Term, e
 		x.recordLoopMods(li, es)
 		for _, c := range x.loopInvariants(fr, li) {
 			x.obligeClause(fr, es, c, "inv-step", loopAnchor(li), func(env *Env) { env.loop = li }, to.Instrs[0].Pos())
+			x.obls[len(x.obls)-1].Watch = x.loopWatches(fr, es, li)
 		}
 		return
 	}
@@ -890,7 +922,7 @@ func (x *Exec) indexAddr(fr *Frame, st *State, ins *ssa.IndexAddr) Value {
 			x.safe(fr, st, And("(<= 0 "+idx+")", "(< "+idx+" "+b.Len+")"), "index", ins.Pos(), "index in range")
 		}
 		x.assumeAt(st, And("(<= 0 "+idx+")", "(< "+idx+" "+b.Len+")"))
-		return x.elemAddr(elem, b.Arr, m.def("ix", SInt, addT(b.Off, idx)))
+		return x.elemAddr(elem, b.Arr, x.sliceIdx(b.Off, idx))
 	case PtrV:
 		at, ok := b.Elem.Underlying().(*types.Array)
 		if !ok {
